@@ -134,7 +134,10 @@ def cmpNode (d : DSt) (n : Nat) (tag : String) (m : Option Node) (io : Option (L
   | none, none => return d
   | some node, some il =>
     let ok := node.objs.length == il.length &&
-      (List.zipWith (fun (o : Obj) (i : ImplObj) => o == i.o && i.setp == o.pauses + o.resumes) node.objs il).all id
+      -- compared: paused, #Pause(), #Resume(), #command executions.  NOT compared (internal bookkeeping the property does
+      -- not speak about, DESIGN.md §0.3): the number of SetPaused notifications and the length of the stash
+      (List.zipWith (fun (o : Obj) (i : ImplObj) =>
+        o.paused == i.o.paused && o.pauses == i.o.pauses && o.resumes == i.o.resumes && o.execs == i.o.execs) node.objs il).all id
     if ok then return { d with objChecks := d.objChecks + il.length }
     else
       IO.println s!"MISMATCH line={n} case={d.caseNo} node={tag} impl={showImpl il} model={showObjs node.objs}"
@@ -166,8 +169,9 @@ def runSpec (d : DSt) (n : Nat) (ef : Nat → Ev) (ia ib : Option (List ImplObj)
   for i in [0:d.cfgs.size] do
     let some c := d.cfgs[i]? | continue
     let some sp := specs[i]? | continue
-    let oa := match ia with | some l => (l[i]?.map (·.o)).getD (fresh c) | none => fresh c
-    let ob := match ib with | some l => (l[i]?.map (·.o)).getD (fresh c) | none => fresh c
+    -- the stash length is internal bookkeeping: the specification sees the observations without it
+    let oa := match ia with | some l => (l[i]?.map (fun x => { x.o with stash := 0 })).getD (fresh c) | none => fresh c
+    let ob := match ib with | some l => (l[i]?.map (fun x => { x.o with stash := 0 })).getD (fresh c) | none => fresh c
     let e := ef i
     let (r, sp') := specStep d.layout c sp e oa ob
     -- evidence: work events that hit a paused object
@@ -283,7 +287,7 @@ def finish (d : DSt) (n : Nat) (ef : Nat → Ev) (ia ib : Option (List ImplObj))
   d ← runSpec d n ef ia ib
   let resync (m : Option Node) (io : Option (List ImplObj)) : Option Node :=
     match m, io with
-    | some node, some il => some { node with objs := il.map (·.o) }
+    | some node, some il => some { node with objs := List.zipWith (fun (m : Obj) (i : ImplObj) => { i.o with stash := m.stash }) node.objs il }
     | m, _ => m
   return { d with nodeA := resync d.nodeA ia, nodeB := resync d.nodeB ib }
 
